@@ -1,5 +1,6 @@
 """C08 - validation is pure: changes neither schema nor data, and is repeatable."""
 import copy
+import warnings
 
 from hypothesis import strategies as st
 from hypothesis.stateful import RuleBasedStateMachine, initialize, precondition, rule
@@ -30,8 +31,16 @@ observe.register_formats()
 class Harness:
     """Shared by the state machine and the replay path."""
 
+    _fresh = __import__("itertools").count()
+
     def __init__(self, recipe):
         self.recipe = copy.deepcopy(recipe)
+        # unregistered format names are made unique per history: "the first time this process meets the name" is then
+        # part of every history (what is emitted on the first call must be emitted on every repeat)
+        recipe = copy.deepcopy(recipe)
+        for node in R.index(recipe).values():
+            if node.get("kw", {}).get("format") in ("vf-unregistered", "vf-unknown-2"):
+                node["kw"]["format"] = "%s-%d-%d" % (node["kw"]["format"], __import__("os").getpid(), next(Harness._fresh))
         self.real = R.build(recipe)
         self.twin = R.build(recipe)
         self.snap0 = observe.snapshot(self.real)
@@ -97,7 +106,10 @@ class Harness:
                 return []
             prior = self.calls[op["index"] % len(self.calls)]
             value = prior[0]
-        got = observe.verdict(self.real, value)
+        with warnings.catch_warnings(record=True) as caught:
+            warnings.simplefilter("always")
+            got = observe.verdict(self.real, value, keep_warnings=True)
+        warned = sorted({str(w.category.__name__) for w in caught})
         if got[0] == "mutated-input":
             fails.append({"sub": "input", "kind": "input-mutated", "value": value, "detail": list(got)})
             return fails
@@ -114,13 +126,17 @@ class Harness:
             if prior[1] != k:
                 fails.append({"sub": "repeat", "kind": "verdict-changed-on-repeat", "value": value,
                               "detail": [prior[1], k]})
+            elif len(prior) > 4 and prior[4] != warned:
+                # with warnings turned into errors (-W error) this IS a different verdict
+                fails.append({"sub": "repeat", "kind": "warnings-changed-on-repeat", "value": value,
+                              "detail": [prior[4], warned]})
             elif k == "ok" and not (observe.plain_eq(prior[2], p) and self._py_equal(prior[3], got[1])):
                 # "an equal result": Python equality of the two returned objects (a model instance is
                 # not equal to an untyped dict, nor to an instance of another class) and equal read-back
                 fails.append({"sub": "repeat", "kind": "result-changed-on-repeat", "value": value,
                               "detail": [canon(prior[2]), canon(p), type(prior[3]).__name__, type(got[1]).__name__]})
         else:
-            self.calls.append((copy.deepcopy(value), k, p, got[1] if k == "ok" else None))
+            self.calls.append((copy.deepcopy(value), k, p, got[1] if k == "ok" else None, warned))
         fails.extend(self.invariants(value))
         return fails
 
@@ -151,7 +167,7 @@ class Harness:
 
 def values_strategy(schema):
     return st.one_of(values_for(schema, 1, 1).map(lambda vs: vs[0]), values_for(schema, 1, 1).map(lambda vs: vs[0]),
-                     st.sampled_from(OVERLAP_VALUES), st.sampled_from(DEP_VALUES))
+                     st.sampled_from(OVERLAP_VALUES), st.sampled_from(DEP_VALUES), st.sampled_from(FORMAT_VALUES))
 
 
 @st.composite
@@ -199,6 +215,22 @@ def dependency_recipes(draw):
     return node
 
 
+@st.composite
+def format_recipes(draw):
+    """Elements whose `format` nobody has registered (every string that reaches them produces a warning - on the
+    first call and on every repeat alike)."""
+    leaf = {"id": 2, "kind": draw(st.sampled_from(["String", "Element"])),
+            "kw": {"format": draw(st.sampled_from(["vf-unregistered", "vf-unknown-2"]))}}
+    shape = draw(st.integers(0, 2))
+    if shape == 0:
+        return dict(leaf, id=1)
+    if shape == 1:
+        return {"id": 1, "kind": "Array", "kw": {}, "sub": {"items": leaf}}
+    return {"id": 1, "kind": "Element", "kw": {}, "props": [
+        {"name": "s", "source": None, "required": False, "element": leaf}]}
+
+
+FORMAT_VALUES = ["abc", "", "x", ["abc"], ["a", "b"], {"s": "abc"}, {"s": 5}, 5, {"s": ""}]
 DEP_VALUES = [{"a": 1}, {"b": 1}, {"a": 1, "b": 2}, {"a": 1, "b": 2, "c": 3, "d": 4, "e": 5}, {"c": 1, "d": 2},
               {"a": 1, "e": 1}, {"d": 1}, {}, [{"a": 1, "b": 2}], [{"a": 1, "b": 2, "c": 3, "d": 4, "e": 5}, {"a": 1}]]
 OVERLAP_VALUES = [{"kind": "box"}, {"kind": 5}, {"size": 2, "kind": "x"}, {"colour": "blue"}, 1, 1.5, 2, [1, 2],
@@ -215,7 +247,7 @@ class Machine(RuleBasedStateMachine):
         self.h = None
 
     @initialize(recipe=st.one_of(R.recipes(R.RCfg(depth=3)), R.recipes(R.RCfg(depth=3)), R.recipes(R.RCfg(depth=3)),
-                                 overlapping_anyof(), dependency_recipes()))
+                                 overlapping_anyof(), dependency_recipes(), format_recipes()))
     def init(self, recipe):
         self.h = Harness(recipe)
         self.schema = R.to_schema(recipe)
